@@ -6,6 +6,8 @@ CONSTANTS
   Prog <- YProg
   Modes = {"fork", "spawn"}
   QInit = {TRUE, FALSE}
+  Creator <- NoCreator
+  Kind <- AllThreading
   MaxToggle = 1
   CopyStep = TRUE
   Variant = "code"
@@ -15,6 +17,7 @@ INVARIANT OwnReply
 INVARIANT Reentrant
 INVARIANT NoDeadlock
 INVARIANT CleanEnd
+INVARIANT HandOverHeld
 PROPERTY AbsStep
 VIEW View
 CHECK_DEADLOCK FALSE
